@@ -32,12 +32,26 @@ package spdxexp
 //@ pred okExp(e *expressionStream) = e != nil && 0 <= e.index && e.index <= len(e.expression)
 
 // ---------------------------------------------------------------------------
+// One notion of validity (C04).  parse is a deterministic function of its
+// argument (C13: no state, no I/O, no nondeterminism), so "parse(s) returns no
+// error" is a logical function V of the string, and "parse(s) returns an
+// AND/OR node" a logical function K.  The two 'defines' clauses introduce V and
+// K; they are definitions by the code, not proved facts, and are listed as
+// assumptions in the evidence.  That V is the documented grammar is C05.
+
+//@ fn V(s string) bool
+//@ fn K(s string) bool
+//@ def cntInv(a seq[string], n int) int = ite(n <= 0, 0, cntInv(a, n - 1) + ite(V(a[n - 1]), 0, 1))
+
+// ---------------------------------------------------------------------------
 // parse.go
 
 //@ func parse
 //@   modifies nothing
 //@   ensures[C03,C04] !isErr(result1) ==> result0 != nil
 //@   ensures[C04] isErr(result1) ==> result0 == nil
+//@   defines[C04] !isErr(result1) <==> V(source)
+//@   defines[C04] !isErr(result1) ==> (K(source) <==> result0.role == 0)
 //@ end
 
 //@ func (*tokenStream).parseExpression
@@ -140,6 +154,11 @@ package spdxexp
 
 //@ func inLicenseList
 //@   modifies nothing
+//@   ensures[C09] result0 <==> (exists k :: 0 <= k && k < len(licenses) && EqualFold(licenses[k], id))
+//@   ensures[C09] result0 ==> (exists k :: 0 <= k && k < len(licenses) && EqualFold(licenses[k], id) && result1 == licenses[k] && forall j :: 0 <= j && j < k ==> !EqualFold(licenses[j], id))
+//@   ensures[C09] !result0 ==> result1 == id
+//@   loop 0:
+//@     invariant[C09] $i <= len(licenses) && forall k :: 0 <= k && k < $i ==> !EqualFold(licenses[k], id)
 //@ end
 
 //@ func getLicenseRange
@@ -170,16 +189,26 @@ package spdxexp
 
 //@ func ValidateLicenses
 //@   modifies nothing
+//@   ensures[C04] result0 <==> (forall k :: 0 <= k && k < len(licenses) ==> V(licenses[k]))
+//@   ensures[C04] len(result1) == cntInv(elems(licenses), len(licenses))
+//@   ensures[C04] forall k :: 0 <= k && k < len(licenses) && !V(licenses[k]) ==> 0 <= cntInv(elems(licenses), k) && cntInv(elems(licenses), k) < len(result1) && result1[cntInv(elems(licenses), k)] == licenses[k]
 //@   loop 0:
 //@     invariant[C03,C13] fresh(invalidLicenses)
+//@     invariant[C04] $i <= len(licenses) && (valid <==> (forall k :: 0 <= k && k < $i ==> V(licenses[k])))
+//@     invariant[C04] len(invalidLicenses) == cntInv(elems(licenses), $i)
+//@     invariant[C04] forall k :: 0 <= k && k < $i && !V(licenses[k]) ==> 0 <= cntInv(elems(licenses), k) && cntInv(elems(licenses), k) < len(invalidLicenses) && invalidLicenses[cntInv(elems(licenses), k)] == licenses[k]
 //@ end
 
 //@ func Satisfies
 //@   modifies nothing
+//@   ensures[C04] isErr(result1) <==> (!V(testExpression) || len(allowedList) == 0 || exists k :: 0 <= k && k < len(allowedList) && (!V(allowedList[k]) || K(allowedList[k])))
+//@   ensures[C04] isErr(result1) ==> !result0
 //@ end
 
 //@ func ExtractLicenses
 //@   modifies nothing
+//@   ensures[C04] isErr(result1) <==> !V(expression)
+//@   ensures[C04] isErr(result1) ==> result0 == nil
 //@   loop 0:
 //@     invariant[C03,C13] fresh(licenses)
 //@ end
@@ -187,7 +216,10 @@ package spdxexp
 //@ func stringsToNodes
 //@   modifies nothing
 //@   ensures[C03] !isErr(result1) ==> fresh(result0) && len(result0) == len(licenseStrings) && allLeaves(result0)
+//@   ensures[C04] isErr(result1) <==> (exists k :: 0 <= k && k < len(licenseStrings) && (!V(licenseStrings[k]) || K(licenseStrings[k])))
+//@   ensures[C04] isErr(result1) ==> result0 == nil
 //@   loop 0:
+//@     invariant[C04] $i <= len(licenseStrings) && forall k :: 0 <= k && k < $i ==> V(licenseStrings[k]) && !K(licenseStrings[k])
 //@     invariant[C03] fresh(nodes) && len(nodes) == len(licenseStrings)
 //@     invariant[C03] forall k :: 0 <= k && k < $i ==> leaf(nodes[k])
 //@ end
